@@ -433,6 +433,28 @@ def g_route_op(r, options, generate):
             "generate": generate}
 
 
+CLASS_SUBS = [
+    [{"type": "class", "search": "(.*)Class$", "replace": "\\1Type"}],
+    [{"type": "class", "search": "^shape", "replace": "figure"}, {"type": "field", "search": "^point$", "replace": "pt"}],
+    [{"type": "class", "search": "(.*)Class$", "replace": "Kind\\1"}, {"type": "package", "search": "http://www.w3.org/1999/xlink", "replace": "xl"}],
+]
+
+
+def g_interleave(r, fsets):
+    """(A, B): two configurations for the same sources that differ in what a process-wide memo could wrongly share:
+    class/field/package substitutions, naming conventions, structure style, package."""
+    src = r.choice([routes_sources(), routes_sources(), fsets["primer"][0], g_set_stress(r)])
+    style = r.choice(STYLES)
+    variants = [{"default_substitutions": True}, {}, {"substitutions": r.choice(CLASS_SUBS)},
+                {"conventions": {"class_name": {"case": "mixedPascalCase", "safe_prefix": "T"}, "field_name": {"case": "mixedCase", "safe_prefix": "f"}}},
+                {"substitutions": r.choice(CLASS_SUBS), "conventions": {"class_name": {"safe_prefix": "Kls"}}}]
+    va, vb = r.sample(variants, 2)
+    a = dict({"structure_style": style, "package": "gen"}, **va)
+    b = dict({"structure_style": style if r.random() < 0.6 else r.choice(STYLES), "package": r.choice(["gen", "other.pkg"])}, **vb)
+    mk = lambda jid, o: {"op": "pipeline", "id": jid, "sources": src, "options": o, "timeout": 90}  # noqa: E731
+    return mk("A", a), mk("B", b)
+
+
 STYLES = ["filenames", "namespaces", "clusters", "single-package", "namespace-clusters"]
 
 
@@ -932,8 +954,29 @@ def run(ck: Check):
         flat_res = [x for p in parts for x in p]
         return flat_ops, flat_res
 
-    bg2 = cf.ThreadPoolExecutor(max_workers=1)
+    # ================================================================== D. repeated runs inside ONE interpreter (background thread)
+    def interleave_part(r, fsets):
+        if rp is not None:
+            il = rp.get("interleave")
+            pairs = [tuple(il)] if il else []
+        else:
+            src = routes_sources()
+            fixed = [({"op": "pipeline", "id": "A", "sources": src, "options": {"structure_style": "namespaces", "default_substitutions": True}, "timeout": 90},
+                      {"op": "pipeline", "id": "B", "sources": src, "options": {"structure_style": "namespaces"}, "timeout": 90})]
+            fixed.append((fixed[0][1], fixed[0][0]))
+            pairs = fixed + [g_interleave(r, fsets) for _ in range(ck.n(5, 40))]
+        if not pairs:
+            return [], [], []
+        with cf.ThreadPoolExecutor(max_workers=6) as ex:
+            inter = list(ex.map(lambda ab: run_impl("impl_c12.py", {"ops": [{"op": "interleave", "runs": [ab[0], ab[1], ab[0]]}]}, timeout=900,
+                                                    with_shims=True, hashseed=seeds[0])["results"][0], pairs))
+            fresh = list(ex.map(lambda ab: run_impl("impl_c12.py", {"ops": [ab[0]]}, timeout=900, with_shims=True, hashseed=seeds[0])["results"][0], pairs))
+            fresh_b = list(ex.map(lambda ab: run_impl("impl_c12.py", {"ops": [ab[1]]}, timeout=900, with_shims=True, hashseed=seeds[0])["results"][0], pairs))
+        return pairs, inter, list(zip(fresh, fresh_b))
+
+    bg2 = cf.ThreadPoolExecutor(max_workers=2)
     routes_future = bg2.submit(routes_part, random.Random(ck.seed * 104729 + 5))
+    inter_future = bg2.submit(interleave_part, random.Random(ck.seed * 15485863 + 3), fixture_sets())
 
     # ================================================================== B. the real pipeline
     fsets = fixture_sets()
@@ -1200,6 +1243,42 @@ def run(ck: Check):
                            f"{str(d[1])[:100]!r} vs {str(d[2])[:100]!r}", dict(base, route=name, first_difference=d))
     ck.cov["invocation_routes"] = rstat
 
+    # ================================================================== judge the in-process repetitions
+    pairs, inter, fresh = inter_future.result()
+    ck.cov["evaluations"] += 5 * len(pairs)
+    istat = {"triples": len(pairs), "state_changes": 0, "allowed_state_changes": ["*.stopwatches (timings for the debug log)"]}
+    for (ja, jb), x, (fr, frb) in zip(pairs, inter, fresh):
+        for y in (x, fr, frb):
+            if "harness_error" in y:
+                raise RuntimeError("interleave op failed in the harness: " + y["trace"])
+        a1, b1, a2 = x["results"]
+        base = {"interleave": [ja, jb], "how": "./check C12 --replay <this file>: runs A, B, A in one interpreter and A in a fresh one"}
+        distinct.add(("interleave", json.dumps([ja["options"], jb["options"]], sort_keys=True)))
+        d = first_diff(view(a1), view(a2)) or first_diff(a1["classes"], a2["classes"])
+        if d:
+            ck.failure("in-process-repetition-differs",
+                       f"run A {ja['options']}, then B {jb['options']}, then A again in the same interpreter: the second A differs from the first at "
+                       f"{d[0]}: {str(d[1])[:100]!r} vs {str(d[2])[:100]!r}", dict(base, first_difference=d))
+        d = first_diff(view(fr), view(a2)) or first_diff(view(fr), view(a1))
+        if d:
+            ck.failure("in-process-vs-fresh-process-differs",
+                       f"A {ja['options']} generated after other runs in the same interpreter differs from A in a fresh interpreter at {d[0]}: "
+                       f"{str(d[1])[:100]!r} vs {str(d[2])[:100]!r}", dict(base, first_difference=d))
+        d = first_diff(view(frb), view(b1))
+        if d:
+            ck.failure("in-process-vs-fresh-process-differs",
+                       f"B {jb['options']} generated after A {ja['options']} in the same interpreter differs from B in a fresh interpreter at {d[0]}: "
+                       f"{str(d[1])[:100]!r} vs {str(d[2])[:100]!r}", dict(base, first_difference=d))
+        for i, ch in enumerate(x["state_changes"]):
+            for c in ch:
+                if c["where"].endswith(".stopwatches"):
+                    continue
+                istat["state_changes"] += 1
+                ck.failure("process-state-grows",
+                           f"generation run {i + 1} ({'ABA'[i]}) left process-wide state behind: {c['where']} {c['before']} -> {c['after']}, new keys {c['new_keys']}",
+                           dict(base, state_change=c, run=i))
+    ck.cov["in_process_repetition"] = istat
+
     # ================================================================== evidence
     ck.cov["distinct_nontrivial"] = len(distinct)
     ck.cov["rule"] = ("cores: random graphs / dependency dicts / class containers / type lists / sequence-label lists / import lists with "
@@ -1209,7 +1288,7 @@ def run(ck: Check):
     ck.cov["input_distribution"] = dist
     ck.cov["seeds"] = seeds if len(seeds) <= 8 else seeds[:8] + ["... %d in total" % len(seeds)]
     ck.cov["core_seeds"] = core_seeds
-    ck.cov["routes"] = {"api_options": "exercised", "config_file_write_read": "exercised", "repeat_run": "exercised (2 per seed)",
+    ck.cov["routes"] = {"api_options": "exercised", "config_file_write_read": "exercised", "repeat_run": "exercised (2 fresh processes per seed; A,B,A with different configurations inside one interpreter + state fingerprint)",
                         "cli_flags": "exercised: the real cli.generate (option table of model_options(GeneratorOutput), kwargs->params, GeneratorConfig.read of the cwd project file, output.update, resolve_source) run on a stand-in for click's decorator API and argv parser (harness/impl_c12.install_click)",
                         "cli_flags_plus_project_file": "exercised", "cli_init_config": "not exercised",
                         "cache_flag": "not exercised"}
